@@ -99,7 +99,37 @@ def gen(rng, tier):
         shape = [rng.randint(1, 4) for _ in range(rng.choice([3, 4]))]
         cases.append({"kind": "matvec", "cls": "Affine", "shape": shape, "dt": "float32", "rt": rng.choice(["none", "dict", "file"]),
                       "bias": rng.choice(["vec", "row1"])})
+    # the node as a member of a GRAPH that also holds an un-annotated convolution: after a dictionary round trip of the graph the
+    # node still declares what its own parameters imply (a scalar-parameter neuron behind a shaped layer keeps the empty shape)
+    for _ in range(10 if tier == "quick" else 100):
+        cases.append({"kind": "ingraph", "cls": rng.choice(["LIF", "IF", "LI", "I", "CubaLIF", "Scale", "Threshold", "Delay"]),
+                      "shape": rng.choice([[], [], [3], [2, 6, 6]]), "dt": "float32", "rt": "dict", "nd": rng.choice([1, 2])})
     return cases
+
+
+def run_ingraph(c):
+    import nir
+    sig = ("ingraph", c["cls"], tuple(c["shape"]), c["nd"])
+    nd = c["nd"]
+    fields = {"LIF": ["tau", "r", "v_leak", "v_threshold"], "IF": ["r", "v_threshold"], "LI": ["tau", "r", "v_leak"], "I": ["r"],
+              "CubaLIF": ["tau_syn", "tau_mem", "r", "v_leak", "v_threshold"], "Scale": ["scale"], "Threshold": ["threshold"],
+              "Delay": ["delay"]}[c["cls"]]
+    try:
+        with quiet():
+            node = getattr(nir, c["cls"])(**{f: np.ones(c["shape"], dtype=c["dt"]) for f in fields})
+            conv = (nir.Conv1d if nd == 1 else nir.Conv2d)(None, np.ones((3, 3) + (3,) * nd, dtype="float32"), 1, 0, 1, 1,
+                                                            np.ones(3, dtype="float32"))
+            g = nir.NIRGraph({"in": nir.Input(np.array([3] + [8] * nd)), "conv": conv, "n": node, "out": nir.Output(None)},
+                             [("in", "conv"), ("conv", "n"), ("n", "out")])
+            g2 = nir.NIRGraph.from_dict(g.to_dict())
+    except BaseException as e:  # noqa: BLE001
+        return Outcome(None, f"building / dictionary round trip of a graph with {c['cls']} raised {type(e).__name__}: {e}", True, sig)
+    want = list(c["shape"])
+    n2 = g2.nodes["n"]
+    fail = check_type_dict(n2.input_type, "input", want) or check_type_dict(n2.output_type, "output", want)
+    if fail:
+        fail = f"{c['cls']} with parameters of shape {want} inside a graph, after from_dict(to_dict(graph)): {fail}"
+    return Outcome(None, fail, True, sig)
 
 
 def relayout(a, how):
@@ -192,6 +222,8 @@ def math_shapes(c, node):
 
 def run(c):
     import nir
+    if c["kind"] == "ingraph":
+        return run_ingraph(c)
     r = recipe(c)
     res = try_build(r)
     sig = (c["cls"], tuple(c["shape"]), c.get("form"), c.get("dt"), c["rt"], c.get("w_in"), c.get("bias"), c.get("twins"), c.get("stale"), c.get("layout"))
